@@ -5,4 +5,5 @@ let dispatch fnum z nat entry (is : int list) (xs : Obj.t list) : Obj.t list res
   match entry, is with
   | "derivs", [regime; phase; fabric; n] -> run_derivs fnum (z regime) (z phase) (z fabric) (nat n) xs
   | "kderivs", [regime; phase; fabric; n] -> run_kderivs fnum (z regime) (z phase) (z fabric) (nat n) xs
+  | "spec_derivs", [regime; phase; fabric; n] -> run_spec_derivs fnum (z regime) (z phase) (z fabric) (nat n) xs
   | _ -> Err OtherError
